@@ -428,6 +428,6 @@ func init() {
 			"the random source is replaced by a scripted one: every height sequence has positive probability for every 0 < p < 1",
 			"the model orders by (user key bytes, version descending) computed from the generating tuples, not with types.CompareKeys",
 		},
-		QuickS: 45, ThoroughS: 900,
+		QuickS: 90, ThoroughS: 900,
 	}
 }
